@@ -8,6 +8,9 @@ pure functions.  The code is followed statement by statement, including
 
 * `timeval_is_set` — defined from the table the generator *observed* in the compiled code
   (`Generated.Proto.TIMEVAL_IS_SET_su`), so the model follows the tree under check on the `&&` / `||` question (F18);
+* `ares_addr_equal` on two unknown local addresses (AF_UNSPEC) and whether `ares_cookie_validate` records support
+  while no client cookie is in use — both likewise *observed* (`ADDR_EQUAL_UNSPEC`, `VALIDATE_LEARNS_WHEN_CLEARED`:
+  F30-C17);
 * `timeval_expired` / `ares_timeval_diff` with the exact integer arithmetic (`sec` is a signed 64-bit value, `usec`
   unsigned; equal `usec` fields take the borrow branch);
 * the three timers as *used* (the unsupported-state retry uses the regression constant);
